@@ -13,6 +13,7 @@ CONSTANTS
   SignedArm = TRUE
   AtomicWrites = TRUE
   WriteLock = FALSE
+  AtomicDown = TRUE
   CompleteOnDownError = TRUE
   MaxFaults = 1
   MaxCancels = 1
